@@ -247,4 +247,22 @@ theorem toCharsFixed_parse (k : Nat) (q : Int) (sign : Bool) (p : Nat) (hk : 1 â
     simp only [this]
     cases parseExp suf <;> rfl
 
+theorem rheDec_sci_keeps (k : Nat) (q : Int) (precision : Nat) (hk : dlen k â‰¤ precision + 1) :
+    ((rheDec k (1 - (dlen k : Int)) precision).1,
+      (rheDec k (1 - (dlen k : Int)) precision).2 + (q + (dlen k : Int) - 1)) = (k, q) := by
+  unfold rheDec
+  rw [if_neg (by omega)]
+  simp only
+  congr 1; omega
+
+theorem rheDec_keeps (k : Nat) (q : Int) (p : Nat) (hk : -q â‰¤ (p : Int)) : rheDec k q p = (k, q) := by
+  unfold rheDec; rw [if_neg (by omega)]
+
+theorem sameDec_ne_zero {n k : Nat} {e q : Int} (h : SameDec (n, e) (k, q)) (hk : 1 â‰¤ k) : n â‰  0 := by
+  intro h0
+  unfold SameDec at h
+  simp only [h0, Nat.zero_mul] at h
+  have hpos := pow10_pos (q - e).toNat
+  rcases Nat.mul_eq_zero.mp h.symm with h | h <;> omega
+
 end GeosModel.Num
